@@ -5,7 +5,8 @@
 //!         (returns once `size` barrier jobs wait at the same time) · `w<k>` long job (returns once
 //!         `k` jobs submitted after it have finished) · `p<µs>` pause of the
 //!         submitting thread · `y` yield of the submitting thread · `D` drop now (default: at the end) ·
-//!         `U` drop now BY UNWINDING: the owner of the pool panics with the pool in scope (the panic is caught
+//!         `R<k>` (before the jobs): every job is submitted through `execute_req` with request id `j mod k` — ids repeat
+//!         when k < number of jobs; what id a job carries must not matter · `U` drop now BY UNWINDING: the owner of the pool panics with the pool in scope (the panic is caught
 //!         by the harness; the pool's Drop runs while `std::thread::panicking()`), and must drain all the same
 //! output `size=<n> subm=<m> once=… early=… par=… indep=… joined=… drop=… maxconc=<k> :: <trace tokens>`
 //!   once   = ok | bad:<j>x<count>,…   executions per submitted job, read after everything settled
@@ -136,6 +137,7 @@ enum Op {
     Yield,
     Drop,
     Unwind,
+    ReqIds(usize),
 }
 
 fn parse(words: &[&str]) -> Option<(usize, Vec<Op>)> {
@@ -154,6 +156,7 @@ fn parse(words: &[&str]) -> Option<(usize, Vec<Op>)> {
             'y' if w.len() == 1 => Op::Yield,
             'D' if w.len() == 1 => Op::Drop,
             'U' if w.len() == 1 => Op::Unwind,
+            'R' => Op::ReqIds(w[1..].parse().ok().filter(|k| *k > 0)?),
             's' => Op::Sleep(w[1..].parse().ok()?),
             'p' => Op::Pause(w[1..].parse().ok()?),
             'w' => Op::Waiter(w[1..].parse().ok()?),
@@ -197,6 +200,7 @@ fn drive(n: usize, ops: &[Op], barrier_deadline: Duration) -> Facts {
     let mut submitted = 0usize;
     let mut barrier_jobs = 0usize;
     let mut unwind = false;
+    let mut req_ids: Option<usize> = None;
     for op in ops {
         let kind = match op {
             Op::Pause(us) => {
@@ -212,6 +216,10 @@ fn drive(n: usize, ops: &[Op], barrier_deadline: Duration) -> Facts {
                 unwind = true;
                 break;
             }
+            Op::ReqIds(k) => {
+                req_ids = Some(*k);
+                continue;
+            }
             k => *k,
         };
         if let Op::Barrier = kind {
@@ -225,7 +233,7 @@ fn drive(n: usize, ops: &[Op], barrier_deadline: Duration) -> Facts {
         let (started, ended, inflight, max_conc, timeouts, rv) =
             (started.clone(), ended.clone(), inflight.clone(), max_conc.clone(), timeouts.clone(), rv.clone());
         let (wtimeouts, progress) = (wtimeouts.clone(), progress.clone());
-        pool.execute(move || {
+        let job = move || {
             started[j].fetch_add(1, Ordering::SeqCst);
             let now = inflight.fetch_add(1, Ordering::SeqCst) + 1;
             max_conc.fetch_max(now, Ordering::SeqCst);
@@ -246,7 +254,11 @@ fn drive(n: usize, ops: &[Op], barrier_deadline: Duration) -> Facts {
             inflight.fetch_sub(1, Ordering::SeqCst);
             ended[j].fetch_add(1, Ordering::SeqCst);
             progress.mark(j);
-        });
+        };
+        match req_ids {
+            Some(k) => pool.execute_req(job, lsp_server::RequestId::from((j % k) as i32)),
+            None => pool.execute(job),
+        }
     }
     if unwind {
         // the owner unwinds: the pool is dropped by the unwinding of a panicking closure
